@@ -247,16 +247,6 @@ theorem importType_length_le (s : ImportStatement) :
 
 /-! ### the statement loop and the document -/
 
-theorem flatMap_mem_length {α β : Type} (f : α → List β) (xs : List α) (x : α) (hx : x ∈ xs) :
-    (f x).length ≤ (xs.flatMap f).length := by
-  induction xs with
-  | nil => cases hx
-  | cons y ys ih =>
-    simp only [List.flatMap_cons, List.length_append]
-    rcases List.mem_cons.1 hx with rfl | h
-    · omega
-    · have := ih h; omega
-
 theorem parseStatements_ok (fuel : Nat) (ss : List Statement)
     (hne : ∀ s ∈ ss, 1 ≤ (statement s).length)
     (hitem : ∀ s ∈ ss, ParsesTo (parseStatement fuel) Statement.erase (statement s) s (fun _ => True))
